@@ -22,6 +22,13 @@ var intrinsics map[string]intrinsic
 
 const hp = "github.com/DanielSvub/anytype."
 
+// fileHandle is what an *os.File points to in the file model.
+type fileHandle struct {
+	path   string
+	pos    int
+	closed bool
+}
+
 type fileStub struct {
 	data   strVal
 	exists bool
@@ -412,6 +419,69 @@ func init() {
 		return tuple{sliceVal{a: out}, iface{}}
 	})
 
+	// os.Open / io.ReadAll / (*os.File).Close over the same file stub: an open file is an opaque handle that
+	// remembers its path and a read position
+	reg("os.Open", func(x *Exec, fr *frame, args []value) value {
+		p, ok := args[0].(strVal).concrete()
+		if !ok {
+			panic(unsupported{"os.Open with symbolic path"})
+		}
+		fs, ok := x.fileData[p]
+		if !ok || !fs.exists {
+			cell := value(structure{strVal{s: "open " + p + ": no such file or directory"}})
+			return tuple{(*value)(nil), iface{t: types.NewPointer(x.errStrType), v: &cell}}
+		}
+		h := value(fileHandle{path: p})
+		return tuple{&h, iface{}}
+	})
+	readAll := func(x *Exec, h *value) value {
+		fh, ok := (*h).(fileHandle)
+		if !ok {
+			panic(unsupported{"io.ReadAll of an unmodelled reader"})
+		}
+		bs := x.bytesOf(x.fileData[fh.path].data)
+		var out []value
+		if fh.pos < len(bs) {
+			out = make([]value, 0, len(bs)-fh.pos)
+			for _, b := range bs[fh.pos:] {
+				out = append(out, b)
+			}
+		} else {
+			out = []value{}
+		}
+		fh.pos = len(bs)
+		*h = fh
+		return tuple{sliceVal{a: out}, iface{}}
+	}
+	for _, name := range []string{"io.ReadAll", "io/ioutil.ReadAll"} {
+		reg(name, func(x *Exec, fr *frame, args []value) value {
+			r := args[0].(iface)
+			h, ok := r.v.(*value)
+			if !ok || h == nil {
+				panic(unsupported{"io.ReadAll of an unmodelled reader"})
+			}
+			return readAll(x, h)
+		})
+	}
+	reg("(*os.File).Close", func(x *Exec, fr *frame, args []value) value {
+		h, _ := args[0].(*value)
+		if h == nil {
+			cell := value(structure{strVal{s: "invalid argument"}})
+			return iface{t: types.NewPointer(x.errStrType), v: &cell}
+		}
+		fh, ok := (*h).(fileHandle)
+		if !ok {
+			panic(unsupported{"Close of an unmodelled file"})
+		}
+		if fh.closed {
+			cell := value(structure{strVal{s: "close " + fh.path + ": file already closed"}})
+			return iface{t: types.NewPointer(x.errStrType), v: &cell}
+		}
+		fh.closed = true
+		*h = fh
+		return iface{}
+	})
+
 	// sync.Pool inside encoding/json: cut (fresh scanner each time)
 	reg("encoding/json.newScanner", func(x *Exec, fr *frame, args []value) value {
 		pkg := x.P.prog.ImportedPackage("encoding/json")
@@ -782,7 +852,8 @@ func (x *Exec) fmtArg(verb byte, a value) []*Term {
 			return out
 		}
 		if verb == 'q' {
-			panic(unsupported{"fmt %q"})
+			q := x.callSSA(nil, token.NoPos, x.P.prog.ImportedPackage("strconv").Func("Quote"), []value{v}, nil)
+			return x.bytesOf(q.(strVal))
 		}
 		return x.badVerb(x.tb.bytes[verb], a)
 	case *Term:
